@@ -63,6 +63,23 @@ func VerifC13Expanded() {
 	verifReach("end")
 }
 
+// VerifC13ExpandedInject: the field-injection shape. One selector with a long name (NL bytes over the
+// characters the key syntax itself uses) against two short selectors: a key that writes a field unescaped lets the
+// long name spell out the text of the two-selector key. Fixed lengths keep the path count down.
+func VerifC13ExpandedInject() {
+	nl := verifParam("NL", 7)
+	alpha := "a\";="
+	long := []*labels.Matcher{{Type: labels.MatchEqual, Name: verifStrN("ln", nl, alpha), Value: verifStrN("lv", 1, "ab")}}
+	short := []*labels.Matcher{
+		{Type: labels.MatchEqual, Name: verifStrN("s1n", 1, "ab"), Value: verifStrN("s1v", 1, "ab")},
+		{Type: labels.MatchEqual, Name: verifStrN("s2n", 1, "ab"), Value: verifStrN("s2v", 1, "ab")},
+	}
+	k1 := CacheKey{Block: verifC13Block, Key: CacheKeyExpandedPostings(LabelMatchersToString(long))}.String()
+	k2 := CacheKey{Block: verifC13Block, Key: CacheKeyExpandedPostings(LabelMatchersToString(short))}.String()
+	verifAssert(k1 != k2, "expanded-postings-injection-distinct")
+	verifReach("end")
+}
+
 type verifC13Conv struct {
 	n, v string
 	t    labels.MatchType
